@@ -45,9 +45,17 @@ func (vs *ValueStruct) EncodedSize() uint32 {
 
 // DecodeValue decodes the provided buffer into the value structure.
 func (vs *ValueStruct) DecodeValue(buf []byte) {
+	if len(buf) == 0 {
+		vs.Meta, vs.ExpiresAt, vs.Value = 0, 0, nil
+		return
+	}
 	vs.Meta = buf[0]
 	var sz int
 	vs.ExpiresAt, sz = binary.Uvarint(buf[1:])
+	if sz < 0 { // varint overflows 64 bits: treat as malformed, no payload
+		vs.ExpiresAt, vs.Value = 0, nil
+		return
+	}
 	vs.Value = buf[1+sz:]
 }
 
